@@ -363,7 +363,8 @@ func FromLazy[T any](l lazy.Lazy[T]) Stream[T] {
 
 		lazyValue, err := l.GetOptional(ctx)
 		if err != nil {
-			return util.DefaultValue[T](), err
+			// Wrapping errors, e.g. we don't want EOF accidentally returned from here
+			return util.DefaultValue[T](), fmt.Errorf("lazy failed for Stream: %w", err)
 		}
 		if lazyValue == nil {
 			return util.DefaultValue[T](), io.EOF
